@@ -316,8 +316,8 @@ impl Prop for C12Prop {
     fn streams(&self, tier: Tier) -> Vec<Stream> {
         let q = tier == Tier::Quick;
         vec![
-            Stream::random("lits", if q { 4000 } else { 60000 }, 300),
-            Stream::random("mlprog", if q { 700 } else { 10000 }, 700),
+            Stream::random("lits", if q { 20000 } else { 200000 }, 300),
+            Stream::random("mlprog", if q { 3000 } else { 30000 }, 700),
         ]
     }
     fn generate(&self, stream: &str, t: &mut Tape) -> Option<Case> {
